@@ -7,6 +7,8 @@ import (
 	"fmt"
 	"net/netip"
 	"os"
+	"sort"
+	"strings"
 	"time"
 
 	"github.com/fxamacker/cbor/v2"
@@ -410,6 +412,9 @@ func runC07(c *Ctx) error {
 			}
 		}
 	}
+	if err := c07DuplicateOnMultipath(c); err != nil {
+		return err
+	}
 	if err := c07ReplayAcrossKinds(c); err != nil {
 		return err
 	}
@@ -421,6 +426,90 @@ func runC07(c *Ctx) error {
 // another kind from X (a going-down disconnect, a pong request, an error report); then the very
 // same announcement bytes again: the replay changes nothing - the offline flag stays, the route
 // the disconnect removed stays away, the stored info stays.
+// c07DuplicateOnMultipath: X's announcement reaches the router over two or three peers (several
+// routes to X, of different length); then every one of those frames arrives again, byte for byte
+// (the newest announcement of a hop-ping sender may arrive twice).  A duplicate carries nothing
+// new: the routes to X are the same afterwards (same number, same paths), whichever copy it was.
+func c07DuplicateOnMultipath(c *Ctx) error {
+	for r, n := 0, c.Pick(4, 16); r < n; r++ {
+		e, err := newCtlEnv(c, false)
+		if err != nil {
+			return err
+		}
+		X, err := newGeoIdentity()
+		if err != nil {
+			return err
+		}
+		var relays []*m.Address
+		for i := 0; i < 3; i++ {
+			a, err := newIdentity()
+			if err != nil {
+				return err
+			}
+			relays = append(relays, a)
+		}
+		a, err := c08NewAnn(X, false, 9, time.Now().Add(time.Hour))
+		if err != nil {
+			return err
+		}
+		rec := func(id *m.Address) c08Rec {
+			return c08Rec{pub: id.PublicAddress, delay: uint16(3 + c.Rng.IntN(30)), fl: m.SwitchLabel(2 + c.Rng.IntN(90)), rl: m.SwitchLabel(2 + c.Rng.IntN(90)), signKey: id.PrivateKey, ctx: a.ctx, flipAt: -1}
+		}
+		type copyT struct {
+			data []byte
+			recv *hlink
+			what string
+		}
+		peers := []*rnode{e.P1, e.P2}
+		var copies []copyT
+		for pi, p := range peers {
+			chain := []c08Rec{rec(p.id)}
+			for k := 0; k < (pi+r)%3; k++ { // different lengths over the two peers
+				chain = append(chain, rec(relays[k]))
+			}
+			copies = append(copies, copyT{append(append([]byte(nil), a.base...), c08Encode(chain)...), e.R.links[p.id.IP], fmt.Sprintf("via %s with %d records", p.name, len(chain))})
+		}
+		routesTo := func() []string {
+			var out []string
+			for _, en := range e.R.ro.Table().VerifEntries() {
+				if en.DstIP == X.IP {
+					var hops []string
+					for _, h := range en.Path.Hops {
+						hops = append(hops, h.Router.String())
+					}
+					out = append(out, en.NextHop.String()+":"+strings.Join(hops, ">"))
+				}
+			}
+			sort.Strings(out)
+			return out
+		}
+		for _, cp := range copies {
+			e.R.inject(append([]byte(nil), cp.data...), cp.recv)
+			e.w.queue = nil
+		}
+		before := routesTo()
+		c.Eval()
+		for _, j := range c.Rng.Perm(len(copies)) {
+			res := e.R.inject(append([]byte(nil), copies[j].data...), copies[j].recv)
+			e.w.queue = nil
+			after := routesTo()
+			c.Eval()
+			c.Count("duplicate-on-multipath")
+			if res.panicked() {
+				c.Violate("a duplicated announcement crashed the handler", "replay-panic", map[string]any{"copy": copies[j].what})
+				break
+			}
+			if strings.Join(before, "|") != strings.Join(after, "|") {
+				c.Violate(fmt.Sprintf("an exact duplicate of the newest announcement of X (%s) changed the routes to X: %d before, %d after", copies[j].what, len(before), len(after)), "duplicate-changes-routes",
+					map[string]any{"copy": copies[j].what, "before": before, "after": after})
+				break
+			}
+		}
+		c.NonTrivial(fmt.Sprintf("duplicate-on-multipath/%d", len(before)))
+	}
+	return nil
+}
+
 func c07ReplayAcrossKinds(c *Ctx) error {
 	for r, n := 0, c.Pick(6, 30); r < n; r++ {
 		e, err := newCtlEnv(c, false)
